@@ -228,7 +228,7 @@ def run(ctx):
             check('Residue', lambda: Residue(lambda z: 1.0 / z ** p, pole_order=p, order=o),
                   'residue %s %d' % ('-' if o is None else o, p), o is not None and o <= p, pole_order=p, order=o)
     # Limit path
-    for path in ('radial', 'spiral', 'zigzag', 'circle', ''):
+    for path in ('radial', 'spiral', 'zigzag', 'circle', '', 'random', 'ray', 'straight', 'square', 'spiral2', 'radially', 'Radial', 'SPIRAL', 's', 'r'):
         if path == '':
             continue
         check('Limit path', lambda: Limit(lambda z: np.sin(z) / z, path=path)(0.0),
